@@ -14,11 +14,11 @@ CHECKS = {
          "the specification set is fixed at build time (committed generated files); shapes the macro rejects at expansion time (arrays of enum / struct, anonymous struct without a tag to name it) cannot be observed; the structural comparison of stored vs parsed generic data is replaced by comparing written tokens and typed values (a tag without a member is represented differently by the two producers)",
          "DESIGN.md 5/C19"),
  "C18": ("exhaustive enumeration of A2ML definitions from a grammar-based generator (programs) x bounded-exhaustive conforming instances x all single-token deviations x supply modes, judged by an independent reference matcher (strict and lenient) and payload-token equality",
-         "Programs: every A2ML definition the generator builds to nesting depth 2 (thorough 3) from 14 leaf types (all 10 scalars, char[n], enums with and without values, 1- and 2-dimensional arrays), structs, taggedstruct / taggedunion items in the forms tag, tag member, block, repeated, repeated block, tag (member)*, top-level (member)*, plus variants where the top-level or the first nested enum / struct / taggedstruct / taggedunion is declared by name and referenced later. Per definition: all instances of the enumerator (cap 8 / 24) supplied in-file, built-in or both; for the first instances every single-token deletion, duplication, replacement by another lexical class and appended token that keeps /begin-/end balanced. Strict matcher accepts => ifdata_valid and payload tokens preserved (integer notation kept, floats at type precision); lenient matcher rejects => load succeeds, invalid, payload preserved; in between don't care; reload equal; ifdata_cleanup() keeps exactly the valid blocks.",
+         "Programs: every A2ML definition the generator builds to nesting depth 2 (thorough 3, and 4 over the leaf type uint; no thinning) from 14 leaf types (all 10 scalars, char[n], enums with and without values, 1- and 2-dimensional arrays), arrays of enums / structs / arrays, sequences of arrays, structs, taggedstruct / taggedunion items in the forms tag, tag member, block, repeated, repeated block, tag (member)*, top-level (member)*, plus variants where the top-level or the first nested enum / struct / taggedstruct / taggedunion is declared by name and referenced later. Per definition: all instances of the enumerator (cap 8 / 24) supplied in-file, built-in or both; for the first instances every single-token deletion, duplication, replacement by another lexical class and appended token that keeps /begin-/end balanced, every block written as keyword item and every keyword item with its next 0..4 values written as block. Strict matcher accepts => ifdata_valid and payload tokens preserved (integer notation kept, floats at type precision); lenient matcher rejects => load succeeds, invalid, payload preserved; in between don't care; reload equal; ifdata_cleanup() keeps exactly the valid blocks.",
          "definitions are restricted to LL(1)-unambiguous ones (distinct tags per depth); the library's documented leniencies in non-strict mode (identifier read as string, over-long string, duplicate non-repeatable tag, empty IF_DATA) are don't-care",
          "DESIGN.md 5/C18"),
  "C16": ("exhaustive enumeration of file-tree splittings (every contiguous run of children of every node moved to include files: single, nested, sibling, nested+sibling) x directory x name syntax x separator, executed against real files on tmpfs with a lockstep against the flattened text; fault trees in a child process",
-         "For a 4-element module, a 3-module project and two IF_DATA-bearing modules: every contiguous run of children of every node moved into an include file, optionally with a nested include, a sibling include or both, x directory of the file {., sub/, sub/sub2/} x directory of the nested file {., inner/} x quoted / bare names x '/' and '\\' separators; the A2ML block including part of its definition; fault cases (missing, a directory, empty, no name, self-inclusion, mutual inclusion, A2ML self-inclusion) in a child process with a timeout. Oracle: load(main) equals load_from_string(flattened) including the number of diagnostics; write next to the tree and reload gives an equal model with one /include per directly included file; merge_includes() gives include-free text that reloads equal; faults return an error naming the include in a live process.",
+         "For a 4-element module, a 3-module project and two IF_DATA-bearing modules: every contiguous run of children of every node moved into an include file, optionally with a nested include, a sibling include or both, x directory of the file {., sub/, sub/sub2/} x directory of the nested file {., inner/} x quoted / bare names x '/' and '\\' separators; the A2ML block including part of its definition; a nested block, repeated blocks or the whole content of an IF_DATA payload moved to an include file (with and without A2ML); fault cases (missing, a directory, empty, no name, self-inclusion, mutual inclusion, A2ML self-inclusion) in a child process with a timeout. Oracle: load(main) equals load_from_string(flattened) including the number of diagnostics; write next to the tree and reload gives an equal model with one /include per directly included file; merge_includes() gives include-free text that reloads equal; faults return an error naming the include in a live process.",
          "the working directory is an empty directory so that no name resolves by accident; absolute include paths and symlinks are not explored",
          "DESIGN.md 5/C16"),
  "C17": ("lockstep of load(file) against load_from_string(decoded text) over the enumerated space documents x 10 encodings x length residues, plus invalid-Unicode variants and an exhaustive 4-byte-prefix sweep",
@@ -26,7 +26,7 @@ CHECKS = {
          "first character of the text is ASCII (format requirement); diagnostics are compared by number and variant because they embed the file name",
          "DESIGN.md 5/C17"),
  "C15": ("explicit-state exploration of edit histories over {sort_new_items, push kind k, merge module j} with the real A2lFile as state: all action sequences to depth 4/5, deviation-bounded long histories (<= 2 non-default actions at every pair of positions), consecutive-call ladders",
-         "(i) every sequence of the 10 actions up to depth 4 (thorough 5) from 4 start files, observed after each step; (ii) histories of 40 (thorough 72 and 300) sort_new_items calls with at most two other actions at every (pair of) position(s); (iii) 64 consecutive calls on files with 1..1000 elements and 40 (200) insert/sort cycles per kind. Observation: order of the module's children in write_to_string. Oracle: the relative order of elements that have a position never changes, after a call every newly placed element sits in the run directly behind the last placed element of its kind, elements without an anchor stay behind all placed ones, no panic or overflow (overflow checks on).",
+         "(i) every sequence of the 10 actions up to depth 4 (thorough 5) from 4 start files, observed after each step; (ii) histories of 40 (thorough 72 and 300) sort_new_items calls with at most two other actions at every (pair of) position(s); (iii) 64 consecutive calls on files with 1..1000 elements and on 54 files with three kinds in every order in blocks of 2..40 (IF_DATA / USER_RIGHTS in front), 40 (200) insert/sort cycles per kind, 2 and 5 new elements of one kind per cycle on a 30+30 file. Observation: order of the module's children in write_to_string. Oracle: the relative order of elements that have a position never changes, after a call every newly placed element sits in the run directly behind the last placed element of its kind, elements without an anchor stay behind all placed ones, no panic or overflow (overflow checks on).",
          "'placed' means the element has a position key (uid != 0); elements of a kind without any placed element keep floating at the end, which the repository's own test asserts as intended; IF_DATA blocks have no identity and are only covered by order stability",
          "DESIGN.md 5/C15"),
  "C14": ("exhaustive enumeration of unsorted modules (all duplicate-free sequences over 6 kinds x 4 names up to length 3/4, all ordered pairs of list kinds, singletons at every position, two modules) with permutation / grouping / reload / idempotence oracles",
@@ -34,11 +34,11 @@ CHECKS = {
          "names are lower-case ASCII without digits so that every reading of 'alphabetical' agrees",
          "DESIGN.md 5/C14"),
  "C11": ("exhaustive single-reference (thorough: pairwise) corruption of a fully consistent generated module over every covered position x every alternative target class; exhaustive structural-oddity grid for totality",
-         "One consistent module in which each of the 48 reference positions inspected by check() is populated (empty report required) x every alternative target of the position's namespace class: missing, another kind of the same namespace, NO_COMPU_METHOD / NO_INPUT_QUANTITY / NO_INVERSE_TRANSFORMER, THIS.<component> valid and invalid, a name of another namespace; thorough adds all pairs. The names in the CrossReferenceErrors must equal the names made missing. Totality: 8 characteristic types x 0..7 AXIS_DESCR x 5 axis kinds x 3 record layouts for CHARACTERISTIC and TYPEDEF_CHARACTERISTIC, duplicate names, cycles, empty lists, REF_MEMORY_SEGMENT without MOD_PAR, every corpus document and the cleanup modules: check() returns and the model is unchanged.",
+         "One consistent module in which each of the 48 reference positions inspected by check() is populated (empty report required) x every alternative target of the position's namespace class: missing, another kind of the same namespace, NO_COMPU_METHOD / NO_INPUT_QUANTITY / NO_INVERSE_TRANSFORMER, THIS.<component> valid and invalid, a name of another namespace; thorough adds all pairs. The names in the CrossReferenceErrors must equal the names made missing. Totality: 8 characteristic types x 0..7 AXIS_DESCR x 5 axis kinds x 3 record layouts for CHARACTERISTIC and TYPEDEF_CHARACTERISTIC, duplicate names within every repeatable named kind of the module, cycles, empty lists, REF_MEMORY_SEGMENT without MOD_PAR, every corpus document and the cleanup modules: check() returns and the model is unchanged.",
          "'covered' positions are those check() inspects at the pinned commit (DESIGN appendix A, column K)",
          "DESIGN.md 5/C11"),
- "C10": ("exhaustive enumeration of small helper reference graphs (all 3-node GROUP / FUNCTION / UNIT graphs x content x users) and of every usage position x {used, unused, dangling}; invariant oracle on module snapshots before / after / after-twice",
-         "All SUB_GROUP relations on 3 GROUPs x per-group content x ROOT x USER_RIGHTS subsets, all SUB_FUNCTION relations on 3 FUNCTIONs x content x FUNCTION_LIST users, all REF_UNIT functions on 3 UNITs x used subsets, and every usage position of COMPU_METHOD, conversion tables, UNIT, RECORD_LAYOUT, GROUP and FUNCTION as the only user x {used, unused, dangling} x target kind. After cleanup: only helper kinds removed, objects and typedefs equal modulo previously dangling references, no remaining element refers to a removed one, a check()-clean file stays clean, a second cleanup changes nothing (text), the cleaned file reloads equal.",
+ "C10": ("exhaustive enumeration of small helper reference graphs (all 3-node GROUP / FUNCTION / UNIT graphs x content x users) and of every usage position x {used, unused, dangling, used by a removable helper}; invariant oracle on module snapshots before / after / after-twice",
+         "All SUB_GROUP relations on 3 GROUPs x per-group content x ROOT x USER_RIGHTS subsets, all SUB_FUNCTION relations on 3 FUNCTIONs x content x FUNCTION_LIST users, all REF_UNIT functions on 3 UNITs x used subsets, and every usage position of COMPU_METHOD, conversion tables, UNIT, RECORD_LAYOUT, GROUP and FUNCTION as the only user x {used, unused, dangling, used only by a helper that is itself removable} x target kind. After cleanup: only helper kinds removed, objects and typedefs equal modulo previously dangling references, no remaining element refers to a removed one, a check()-clean file stays clean, a second cleanup changes nothing (text), the cleaned file reloads equal.",
          "graphs with more than three helpers of one kind are not explored; completeness of removal is asserted only through idempotence",
          "DESIGN.md 5/C10"),
  "C08": ("explicit enumeration of all overlap assignments per namespace (cells name x side x kind x content), bfs over merge histories with state deduplication, algebraic cases; relational oracle on module snapshots",
@@ -46,7 +46,7 @@ CHECKS = {
          "USER_RIGHTS, SYSTEM_CONSTANT, MEMORY_LAYOUT and the singletons are all-or-nothing by design; element content is represented by two variants per kind",
          "DESIGN.md 5/C08"),
  "C09": ("exhaustive enumeration of reference positions x target kinds x overlap patterns x referrer novelty (thorough: pairs of positions) with a reference-graph oracle under the observed renaming",
-         "60 referrer shapes covering every reference position of the grammar (including those nested in AXIS_DESCR, OVERWRITE, VAR_CRITERION and the singletons MOD_COMMON / VARIANT_CODING) x every kind of the target namespace x target {absent, identical, conflicting, conflicting with X.MERGE taken} x referrer {new, conflicting}, with a same-named conflicting element in another namespace, plus identifier positions that are not references; thorough adds all pairs of positions in one module. The element representing B's referrer must hold, at every position, the name of the element representing its original target; non-reference identifiers must stay unchanged.",
+         "60 referrer shapes covering every reference position of the grammar (including those nested in AXIS_DESCR, OVERWRITE, VAR_CRITERION and the singletons MOD_COMMON / VARIANT_CODING) x every kind of the target namespace x target {absent, identical, conflicting, conflicting with X.MERGE taken in A, conflicting with X.MERGE present in B and referenced there} x referrer {new, conflicting}, with a same-named conflicting element in another namespace, plus identifier positions that are not references; thorough adds all pairs of positions in one module. The element representing B's referrer must hold, at every position, the name of the element representing its original target; non-reference identifiers must stay unchanged.",
          "elements of B shared as identical are A's elements (their references are A's); the table of reference positions (vcore/src/refsites.rs) is derived from the frozen grammar by hand",
          "DESIGN.md 5/C09"),
  "C06": ("lockstep of strict and non-strict load on the exhaustively enumerated valid / single-fault (thorough: double-fault) document space; detection token located by the reference interpreter",
@@ -58,11 +58,11 @@ CHECKS = {
          "scope restrictions of the statement (payload tags never collide with the enclosing block's tags; no bare keyword directly behind an open-ended list)",
          "DESIGN.md 5/C07"),
  "C03": ("exhaustive enumeration of small inputs per family (byte strings, lexical-unit sequences, document prefixes and token mutations, A2ML unit sequences, nesting ladder) x configurations, each executed on the real loader under catch_unwind, overflow checks and a hang watchdog",
-         "All byte strings of length <= 2 and all strings of length <= 4 (thorough 5) over a 14-byte alphabet through load(file); all sequences of <= 3 (4) lexical units, spaced and unspaced, bare / inside MODULE / inside IF_DATA with A2ML, crossed with strict, a2ml_spec none/valid/invalid and entry point load_from_string / load_fragment; one more unit for a single configuration; every byte prefix and every single-token deletion, duplication and swap of every carrier and rich document; all A2ML unit sequences of <= 3/4 (4/5) units as in-file A2ML and as built-in specification; nesting ladder 1..64. The harness is built with overflow checks and debug assertions so that arithmetic overflow is a panic.",
+         "All byte strings of length <= 2 and all strings of length <= 4 (thorough 5) over a 14-byte alphabet through load(file); all sequences of <= 3 (4) lexical units, spaced and unspaced, bare / inside MODULE / inside IF_DATA with A2ML, crossed with strict, a2ml_spec none/valid/invalid and entry point load_from_string / load_fragment; one more unit for a single configuration; every byte prefix and every single-token deletion, duplication and swap of every carrier and rich document; all A2ML unit sequences of <= 3/4 (4/5) units as in-file A2ML and as built-in specification; nesting ladder 1..64; include trees: all sequences of <= 3 (4) items over an inline element and ten /include directives (flat, nested, two levels, empty, cyclic, truncated, IF_DATA, include as last token, missing) loaded from files. The harness is built with overflow checks and debug assertions so that arithmetic overflow is a panic.",
          "inputs longer than the bounds, stack exhaustion by nesting deeper than 64 and memory exhaustion by size are outside the explored space; a hang is reported by a 20 s watchdog",
          "DESIGN.md 5/C03"),
  "C05": ("deviation-bounded exhaustive enumeration of layouts (whitespace/comment shape at every token gap, pairs on selected documents) with a token-line oracle from an independent tokenizer; exhaustive single-edit histories per list kind with an exact line-diff oracle",
-         "(i)/(ii): every carrier and rich document x 7 whitespace shapes at every gap the scope allows x 7 comment shapes at every block-level gap, CRLF, all pairs of such deviations on selected documents: each significant token is on the same line in input and output, and the writer's own output is reproduced byte for byte. (iii): for each of 18 module-level list kinds, a 3-element document in 3 layouts x {edit string field, edit numeric field, remove first/middle/last, push builder-made element with/without sort_new_items}: the new text equals the old text with exactly the lines of that object changed, removed or inserted.",
+         "(i)/(ii): every carrier and rich document x 7 whitespace shapes at every gap the scope allows x 7 comment shapes at every block-level gap, CRLF, all pairs of such deviations on selected documents; 10 IF_DATA payloads (interpreted and uninterpreted) on one line and one token per line x 7 whitespace shapes at every payload gap: each significant token is on the same line in input and output, and the writer's own output is reproduced byte for byte. (iii): for each of 18 module-level list kinds, a 3-element document in 3 layouts x {edit string field, edit numeric field, remove first/middle/last, push builder-made element with/without sort_new_items}: the new text equals the old text with exactly the lines of that object changed, removed or inserted.",
          "scope of the quantifier (canonical order, include-free, no raw line breaks in strings, comments only between sub-elements); nested list kinds are represented by ANNOTATION/AXIS_DESCR-like children only through the layout part",
          "DESIGN.md 5/C05"),
  "C02": ("deviation-bounded exhaustive enumeration of valid documents; input and first output compared as canonical token lists of the reference interpreter's trees; exhaustive uninterpreted IF_DATA token sequences; limit literals per integer width",
@@ -70,7 +70,7 @@ CHECKS = {
          "fractions inside uninterpreted IF_DATA are compared at f32 precision (the library stores them as f32); comments outside blocks with optional sub-elements may be dropped (statement)",
          "DESIGN.md 5/C02"),
  "C01": ("deviation-bounded exhaustive enumeration of documents (grammar derivations x layout x value classes x IF_DATA modes), each run through load/write/load/write on the real code with a byte-fixpoint oracle",
-         "All carrier documents of the grammar with every optional slot (once, twice, pairs), every enum item, each also with CRLF; 7 whitespace and 7 comment shapes at every token gap of every carrier (all pairs on selected documents); every value class at every scalar parameter (integers per width/notation, 28 float notations, all strings over 17 escape units up to length k, identifier shapes); IF_DATA with/without A2ML and built-in spec. For each accepted input: reload succeeds, models equal, second write byte-identical (third cycle classifies drift). Exhaustive for <= 1 deviation per document (2 on selected documents).",
+         "All carrier documents of the grammar with every optional slot (once, twice, pairs), every enum item, each also with CRLF; 7 whitespace and 7 comment shapes at every token gap of every carrier (all pairs on selected documents); every value class at every scalar parameter (integers per width/notation, 28 float notations, all strings over 17 escape units up to length k, identifier shapes); IF_DATA with/without A2ML and built-in spec; 1..64 (257) elements of each list kind pushed onto a loaded and a new file; the MODULE content of every document through load_fragment; every document written with a banner to a file and loaded from it. For each accepted input: reload succeeds, models equal, second write byte-identical (third cycle classifies drift). Exhaustive for <= 1 deviation per document (2 on selected documents).",
          "inputs the loader rejects are outside the quantifier; API-built models are covered by the builder sweep only for the kinds listed in the evidence; unbounded string content is represented by the escape-unit alphabet",
          "DESIGN.md 5/C01"),
  "C04": ("deviation-bounded exhaustive enumeration of grammar derivations (every tag x parameter x slot x enum item x block form x 6 versions) against a reference interpreter over the frozen grammar, plus field-by-field match of the loaded model",
